@@ -88,7 +88,11 @@ M_C11(cfg, meta, pre, r, post, g) ==
                         /\ r.inv = 1 => r.exec
           /\ ~present => r.invn = 0 /\ r.exec
      /\ r.ev = "fin" /\ ~r.panic /\ ShouldStore(meta, r) =>
-          Stored(r, post) \/ MayVanish(cfg, pre, EngEvent(meta, r))
+          /\ Stored(r, post) \/ MayVanish(cfg, pre, EngEvent(meta, r))
+          \* the body only ran over a present, unexpired entry because the check called it stale:
+          \* whatever happens to the fresh result, the stale value must be gone
+          /\ (r.k \in Dom(pre) /\ ~Expired(cfg, pre.store[r.k])) =>
+                (r.k \notin Dom(post) \/ post.store[r.k].val # pre.store[r.k].val)
 
 \* C14: whether the body runs depends on exactly the cache the scope designates: the calling
 \* thread's own cache for thread scope, the one shared cache otherwise
